@@ -327,6 +327,8 @@ static int ex_region(char *loc, int *beg, int *end)
 		return 0;
 	}
 	if (!*loc) {
+		if (xrow < 0 || xrow > lbuf_len(xb))
+			return 1;
 		*beg = xrow;
 		*end = xrow == lbuf_len(xb) ? xrow : xrow + 1;
 		return 0;
